@@ -1,6 +1,92 @@
-(* C07 — interim *)
-From Verif Require Import Base GenThresholds Codebase.
+(* C07 — totals, profiles and the folder tree always agree with the measurements.
+   Statements only (re-exported); proofs in Agg/CodebaseProofs*.v (about 2000
+   lines) over the model Agg/Codebase.v of Codebase.add_file/add_folder/aggregate
+   with the leaves re-translated from utils.py / LanguageTotals.py on every run.
+   es = the inserted file entries (any insertion order), build = add_file* ; aggregate. *)
+From Verif Require Import Base GenThresholds Thresholds Codebase
+  CodebaseProofsStr CodebaseProofsTotals CodebaseProofsTree CodebaseProofsInv CodebaseProofsAgg CodebaseProofs.
 Open Scope Z_scope.
-Example C07_ex : match build [47] [mk_entry [97; 47; 98; 46; 99] [99] [67] 3 [mkMeas [102] (mkLoc 1 1) (mkLoc 2 1) 3]] with
-  | OK cb => map fst (cb_tree cb) = [[46; 47]; [97; 47]] | Err _ => False end.
+
+(* building never fails (no recursion limit, no KeyError) for well-formed relative paths *)
+Theorem C07_total : forall root es, Forall wf_path (map e_path es) -> exists cb, build root es = OK cb.
+Proof. exact C07_build_total. Qed.
+
+(* files: exactly once each, keyed by path, in insertion order *)
+Theorem C07_files : forall root es cb, NoDup (map e_path es) -> build root es = OK cb ->
+  cb_files cb = map (fun e => (e_path e, e)) es.
+Proof. exact CodebaseProofsTotals.C07_files. Qed.
+
+(* per-language totals = number of its files, sum of their line totals, number of their functions,
+   numbers of hard-to-maintain and unmaintainable ones *)
+Theorem C07_lang_totals : forall root es cb, build root es = OK cb ->
+  forall lang, let fs := filter (fun e => pystr_eqb (e_language e) lang) es in
+    (dget (cb_totals cb) lang = None <-> forall e, In e es -> e_language e <> lang) /\
+    (fs <> [] -> exists t, dget (cb_totals cb) lang = Some t /\ lt_language t = lang /\
+        lt_files t = Z.of_nat (length fs) /\ lt_loc t = sumf e_loc fs /\
+        lt_functions t = sumf (fun e => Z.of_nat (length (e_measurements e))) fs /\
+        lt_hard_to_maintain t = sumf (fun e => count_cat Hard (e_measurements e)) fs /\
+        lt_unmaintainable t = sumf (fun e => count_cat Unm (e_measurements e)) fs).
+Proof. exact CodebaseProofsTotals.C07_lang_totals. Qed.
+
+(* grand totals are the sums over languages = the sums over all files *)
+Theorem C07_grand_totals : forall root es cb, build root es = OK cb ->
+  sumf (fun kt => lt_files (snd kt)) (cb_totals cb) = Z.of_nat (length es) /\
+  sumf (fun kt => lt_loc (snd kt)) (cb_totals cb) = sumf e_loc es /\
+  sumf (fun kt => lt_functions (snd kt)) (cb_totals cb) = sumf (fun e => Z.of_nat (length (e_measurements e))) es /\
+  sumf (fun kt => lt_hard_to_maintain (snd kt)) (cb_totals cb) = sumf (fun e => count_cat Hard (e_measurements e)) es /\
+  sumf (fun kt => lt_unmaintainable (snd kt)) (cb_totals cb) = sumf (fun e => count_cat Unm (e_measurements e)) es.
+Proof. exact CodebaseProofsTotals.C07_grand_totals. Qed.
+
+(* each file's profile partitions its line total by category *)
+Theorem C07_file_profile : forall path checksum language loc ms,
+  let e := mk_entry path checksum language loc ms in
+  e_profile e = [sum_cat Easy ms; sum_cat Verbose ms; sum_cat Hard ms; sum_cat Unm ms] /\
+  sumZ (e_profile e) = total_len (e_measurements e) /\
+  (e_loc e = total_len (e_measurements e) -> sumZ (e_profile e) = e_loc e).
+Proof. exact CodebaseProofsTotals.C07_file_profile. Qed.
+
+(* each folder's profile is the sum over ALL files beneath it (any depth); the root's is the whole codebase's *)
+Theorem C07_folder_profile : forall root es cb, Forall wf_path (map e_path es) -> Forall mk_built es ->
+  build root es = OK cb -> forall k fo, In (k, fo) (cb_tree cb) ->
+  let fs := filter (fun e => beneathb k (e_path e)) es in
+  fo_profile fo = [sum_over Easy fs; sum_over Verbose fs; sum_over Hard fs; sum_over Unm fs].
+Proof. exact CodebaseProofs.C07_folder_profile. Qed.
+Theorem C07_root_is_all : forall root es cb, Forall wf_path (map e_path es) -> Forall mk_built es ->
+  build root es = OK cb -> exists fo, In (rootk, fo) (cb_tree cb) /\
+  fo_profile fo = [sum_over Easy es; sum_over Verbose es; sum_over Hard es; sum_over Unm es].
+Proof. exact CodebaseProofs.C07_root_is_all. Qed.
+
+(* the folder tree: keys are the root plus all ancestors of all files, each once; each file once under its
+   parent folder; each folder once under its parent; every folder reachable from the root *)
+Theorem C07_folder_keys : forall root es cb, Forall wf_path (map e_path es) -> build root es = OK cb ->
+  NoDup (map fst (cb_tree cb)) /\
+  forall k, In k (map fst (cb_tree cb)) <-> k = rootk \/ exists e, In e es /\ In k (ancestors (e_path e)).
+Proof. exact CodebaseProofs.C07_folder_keys. Qed.
+Theorem C07_tree_files_once : forall root es cb, Forall wf_path (map e_path es) -> NoDup (map e_path es) ->
+  build root es = OK cb -> forall e, In e es ->
+  (exists fo, In (folder_of (e_path e), fo) (cb_tree cb) /\ occurs_once (EFile e) (fo_entries fo)) /\
+  (forall k fo, In (k, fo) (cb_tree cb) -> In (EFile e) (fo_entries fo) -> k = folder_of (e_path e)).
+Proof. exact CodebaseProofs.C07_tree_files_once. Qed.
+Theorem C07_every_folder_reachable : forall root es cb, Forall wf_path (map e_path es) -> build root es = OK cb ->
+  forall k, In k (map fst (cb_tree cb)) -> reach (cb_tree cb) k.
+Proof. exact CodebaseProofs.C07_every_folder_reachable. Qed.
+
+Print Assumptions C07_total.
+Print Assumptions C07_files.
+Print Assumptions C07_lang_totals.
+Print Assumptions C07_grand_totals.
+Print Assumptions C07_file_profile.
+Print Assumptions C07_folder_profile.
+Print Assumptions C07_root_is_all.
+Print Assumptions C07_folder_keys.
+Print Assumptions C07_tree_files_once.
+Print Assumptions C07_every_folder_reachable.
+
+Example C07_example :
+  match build [47] [mk_entry [97; 47; 98; 46; 99] [99] [67] 76 [mkMeas [102] (mkLoc 1 1) (mkLoc 2 1) 15; mkMeas [103] (mkLoc 3 1) (mkLoc 4 1) 61];
+                    mk_entry [97; 47; 100; 47; 101; 46; 99] [99] [67] 31 [mkMeas [104] (mkLoc 1 1) (mkLoc 2 1) 31];
+                    mk_entry [109; 46; 112; 121] [99] [80] 16 [mkMeas [105] (mkLoc 1 1) (mkLoc 2 1) 16]] with
+  | OK cb => map (fun kf => (fst kf, fo_profile (snd kf))) (cb_tree cb)
+             = [([46; 47], [15; 16; 31; 61]); ([97; 47], [15; 0; 31; 61]); ([97; 47; 100; 47], [0; 0; 31; 0])]
+  | Err _ => False end.
 Proof. vm_compute. reflexivity. Qed.
